@@ -455,6 +455,7 @@ def main():
     ap.add_argument("--no-evidence", action="store_true")
     ap.add_argument("--no-shrink", action="store_true")
     ap.add_argument("--no-fresh", action="store_true")
+    ap.add_argument("--no-cross", action="store_true")
     ap.add_argument("--dump-digests")
     a = ap.parse_args()
     prop = a.prop
@@ -472,7 +473,20 @@ def main():
     budget = a.budget or tcfg["budget"]
     t_start = time.monotonic()
     canaries = m.make_canaries(seed, tier) if hasattr(m, "make_canaries") else None
-    lifetimes = [m.generate_lifetime(run_seed(prop, seed, i), tier, a.segments, canaries) for i in range(nlt)]
+    cross = bool(getattr(m, "CROSS", False)) and not a.no_cross
+    if cross:
+        # lifetime 2i+1 is lifetime 2i with its histories in reverse order: every history then runs
+        # after two disjoint pasts (and the first history of one is the last of the other)
+        lifetimes = []
+        for i in range((nlt + 1) // 2):
+            lt = m.generate_lifetime(run_seed(prop, seed, i), tier, a.segments, canaries)
+            lifetimes.append(lt)
+            tw = dict(lt)
+            tw["segments"] = list(reversed(lt["segments"]))
+            tw["twin_of"] = len(lifetimes) - 1
+            lifetimes.append(tw)
+    else:
+        lifetimes = [m.generate_lifetime(run_seed(prop, seed, i), tier, a.segments, canaries) for i in range(nlt)]
     nseg = sum(len(lt["segments"]) for lt in lifetimes)
     log(f"[{prop}] tier={tier} VERIF_SEED={seed} lifetimes={nlt} histories={nseg} budget={budget}s workers={a.workers} repo={repo} (generated in {time.monotonic() - t_start:.1f}s)")
 
@@ -494,6 +508,53 @@ def main():
                 for j, r in enumerate(rs):
                     if r is not None:
                         f.write(f"{L} {j} {lifetimes[L]['segments'][j]['seed']} {r.get('status')} {r.get('digest')}\n")
+
+    # ---------------- cross-lifetime oracle: the same history after two disjoint pasts
+    cross_stats = {"histories_compared": 0, "ops_compared": 0, "mismatching_histories": 0, "confirmed": 0}
+    if cross:
+        cands = []
+        for b in range(1, len(lifetimes), 2):
+            a_i = lifetimes[b]["twin_of"]
+            n = len(lifetimes[a_i]["segments"])
+            for j in range(n):
+                ra, rb = results[a_i][j], results[b][n - 1 - j]
+                if not (ra and rb and ra.get("status") == "ok" and rb.get("status") == "ok") or ra.get("violation") or rb.get("violation"):
+                    continue
+                cross_stats["histories_compared"] += 1
+                oa = {x[0]: x for x in ra.get("ops", [])}
+                ob = {x[0]: x for x in rb.get("ops", [])}
+                bad = None
+                for k in sorted(set(oa) & set(ob)):
+                    xa, xb = oa[k], ob[k]
+                    if xa[1].startswith(("faulted", "skipped")) or xb[1].startswith(("faulted", "skipped")):
+                        continue
+                    cross_stats["ops_compared"] += 1
+                    if (xa[1], xa[2]) != (xb[1], xb[2]) and bad is None:
+                        bad = k
+                if bad is not None:
+                    cross_stats["mismatching_histories"] += 1
+                    cands.append((a_i, j, b, n - 1 - j, bad))
+        seen_kinds = {}
+        for a_i, j, b, jb, k in cands:
+            opk = next((o["kind"] for o in lifetimes[a_i]["segments"][j]["ops"] if o["id"] == k), "?")
+            if seen_kinds.get(opk, 0) >= 2 or cross_stats["confirmed"] >= 6:
+                continue
+            seen_kinds[opk] = seen_kinds.get(opk, 0) + 1
+            # which of the two deviates from a fresh process? ask for a pristine reference of that op
+            for L, jj in ((b, jb), (a_i, j)) if jb > j else ((a_i, j), (b, jb)):
+                lt = freeze(lifetimes[L], results[L], jj)
+                lt["segments"][-1]["pristine"] = sorted(set(lt["segments"][-1].get("pristine", []) + [k]))
+                conf = run_lifetime(prop, lt, repo, tier)
+                cj, cv = first_violation(m, conf, prop)
+                if cv is not None:
+                    log(f"[{prop}] cross-lifetime difference at history seed {lifetimes[L]['segments'][jj]['seed']} op #{k} ({opk}): lifetime {L} deviates from a fresh process")
+                    results[L][jj]["violation"] = cv
+                    results[L][jj]["cross_plan"] = lt
+                    cross_stats["confirmed"] += 1
+                    break
+            else:
+                log(f"[{prop}] HARNESS-NONDETERMINISM: histories differ between twin lifetimes {a_i}/{b} at op #{k} but neither differs from a fresh process")
+                cross_stats["unexplained"] = cross_stats.get("unexplained", 0) + 1
 
     # ---------------- aggregate
     flat = [(L, j, lifetimes[L]["segments"][j], r) for L, rs in enumerate(results) for j, r in enumerate(rs) if r is not None]
@@ -531,7 +592,7 @@ def main():
     for key, where in sorted(new_classes.items(), key=lambda kv: kv[1][0])[:4]:
         L, j = where[0]
         vc = m.violation_class(results[L][j]["violation"])
-        lt = freeze(lifetimes[L], results[L], j)
+        lt = results[L][j].get("cross_plan") or freeze(lifetimes[L], results[L], j)
         log(f"[{prop}] violation class {key} in {len(where)} histories; confirming lifetime {L} segment {j} ({len(lt['segments'])} segments) in a fresh node")
         conf = run_lifetime(prop, lt, repo, tier)
         cj, cv = first_violation(m, conf)
@@ -580,6 +641,8 @@ def main():
         log(f"[{prop}] fork/fresh cross-check mismatch: {fresh['mismatch'][:3]}")
         if exit_code == 0:
             exit_code = 2
+    if cross_stats.get("unexplained") and exit_code == 0:
+        exit_code = 2
 
     forks = sum(max((r.get("node", {}).get("forks", 0) for r in rs if r), default=0) for rs in results)
     cov.update({
@@ -597,6 +660,7 @@ def main():
         "canary_pool": len(canaries or []),
         "fork_equals_fresh_crosschecks": fresh["checked"],
         "fork_equals_fresh_mismatches": len(fresh["mismatch"]),
+        "cross_lifetime": cross_stats,
         "violating_histories": len(viol),
         "new_violation_classes": len(new_classes),
         "known_finding_hits": sum(v[1] for v in known_hits.values()),
